@@ -33,15 +33,47 @@ func explore() {
 		dump(w.since(n))
 	}
 	step("DEPLOY", func() reply { return w.control(id, 6, "u") })
-	step("CONFIGURE", func() reply { return w.control(id, 3, "u") })
-	step("START", func() reply { return w.control(id, 1, "u") })
-	step("STOP", func() reply { return w.control(id, 2, "u") })
-	step("DEPLOY(illegal)", func() reply { return w.control(id, 6, "u") })
-	step("GO_ERROR optype", func() reply { return w.control(id, 5, "u") })
-	step("START in ERROR", func() reply { return w.control(id, 1, "u") })
-	step("teardown noforce", func() reply { return w.teardown(env.Id(), false) })
+	which := os.Args[2]
+	switch which {
+	case "before", "leave", "enter", "after":
+		tr := map[string]string{"before": "before_CONFIGURE", "leave": "leave_DEPLOYED", "enter": "enter_CONFIGURED", "after": "after_CONFIGURE"}[which]
+		w.rec.SetFail(tr, true)
+		step("CONFIGURE failing at "+tr, func() reply { return w.control(id, 3, "u") })
+		w.rec.SetFail(tr, false)
+	case "body":
+		w.setFailBody([]string{"CONFIGURE"})
+		step("CONFIGURE failing body", func() reply { return w.control(id, 3, "u") })
+		w.setFailBody(nil)
+	case "goerr":
+		w.rec.SetFail("before_GO_ERROR", true)
+		step("START illegal, GO_ERROR failing before", func() reply { return w.control(id, 1, "u") })
+		w.rec.SetFail("before_GO_ERROR", false)
+	case "goerr2":
+		w.rec.SetFail("enter_ERROR", true)
+		step("START illegal, GO_ERROR failing enter", func() reply { return w.control(id, 1, "u") })
+		w.rec.SetFail("enter_ERROR", false)
+	case "stale":
+		step("CONFIGURE", func() reply { return w.control(id, 3, "u") })
+		w.rec.Gate("leave_CONFIGURED")
+		done := make(chan reply, 2)
+		go func() { done <- w.destroy(id, true, false, false, "destroyer") }()
+		for !w.rec.Started("leave_CONFIGURED") {
+			time.Sleep(time.Millisecond)
+		}
+		fmt.Println("teardown blocked in leave_CONFIGURED; transition:", env.CurrentTransition())
+		done2 := make(chan reply, 2)
+		go func() { done2 <- w.control(id, 1, "stale-caller") }()
+		for env.GetLastRequestUser().GetName() != "stale-caller" {
+			time.Sleep(time.Millisecond)
+		}
+		time.Sleep(5 * time.Millisecond)
+		n := w.mark()
+		w.rec.Release("leave_CONFIGURED")
+		fmt.Printf("destroy -> %+v\n", <-done)
+		fmt.Printf("control -> %+v  state=%s listed=%v\n", <-done2, env.CurrentState(), w.listed(env.Id()))
+		dump(w.since(n))
+	}
 	step("destroy", func() reply { return w.destroy(id, false, false, false, "u") })
-	step("control after destroy", func() reply { return w.control(id, 1, "u") })
 	w.dispose(env)
 }
 
